@@ -93,6 +93,21 @@ theorem retries_le_maxAttempts (rs : List Retrier) (es : List Str) (n : Nat) :
       omega
     · omega
 
+/-- in the interpreter: whenever `handle_error` decides to re-run a state, the retry count it passes
+on is at most the largest MaxAttempts of the state's retriers — so no state visit is ever re-run
+more often than that, whatever the task behaviour -/
+theorem rerun_count_bounded (rs : List Retrier) (cs : List Catcher) (e : Str) (n : Nat) (d : Rat) (k : Nat)
+    (h : decideError rs cs e n = .retry d k) : k = n + 1 ∧ k ≤ maxOfAttempts rs := by
+  unfold decideError at h
+  split at h
+  · cases h
+  · split at h
+    · rename_i d' k' hs
+      cases h
+      have := scan_retry_bound rs e n d k hs
+      exact ⟨this.1, by omega⟩
+    · split at h <;> cases h
+
 /-- with a single retrier: at most its MaxAttempts -/
 theorem single_retrier_bound (r : Retrier) (es : List Str) : retriesGranted [r] es 0 ≤ r.maxAttempts := by
   have := retries_le_maxAttempts [r] es 0
